@@ -22,7 +22,7 @@ import (
 // commitments recomputed by the harness from the exported gates.
 func runAudit(r *vcore.Run) {
 	cvs := curves.Tier(r.Quick())
-	n := r.Pick(12, 80)
+	n := r.Pick(6, 80)
 	type job struct {
 		ops *cvapi.Ops
 		idx int
